@@ -245,7 +245,19 @@ fn tls_connect_proxy(target_port: u16) -> u16 {
 }
 
 pub fn generate(seed: u64, tier: &str, sink: &mut Sink) {
-    generate_sel(seed, tier, sink, false)
+    generate_sel(seed, tier, sink, false);
+}
+
+/// just the rows in which the flags are set on a sibling request and on a clone of the session, https URL given
+/// directly (used by C16: settings flow by value also where the TLS layer keeps state of its own — real handshakes)
+pub fn generate_siblings(seed: u64, tier: &str, sink: &mut Sink) {
+    SIBLINGS_ONLY.with(|s| s.set(true));
+    generate_sel(seed, tier, sink, false);
+    SIBLINGS_ONLY.with(|s| s.set(false));
+}
+
+thread_local! {
+    static SIBLINGS_ONLY: std::cell::Cell<bool> = const { std::cell::Cell::new(false) };
 }
 
 /// `tunnels_only`: just the rows that go through the CONNECT proxy (used by C12: after the proxy has agreed, the
@@ -292,6 +304,9 @@ pub fn generate_sel(_seed: u64, tier: &str, sink: &mut Sink, tunnels_only: bool)
                                     continue;
                                 }
                                 if !thorough && mode == "https-proxy" && (place == "request" || (*chain == "unknown")) {
+                                    continue;
+                                }
+                                if SIBLINGS_ONLY.with(|s| s.get()) && (place != "sibling" || mode != "direct" || host_kind == "ipv6-literal") {
                                     continue;
                                 }
                                 if tunnels_only && (mode != "connect" || host_kind == "ipv6-literal" || *chain == "pinned" || (!thorough && aic && place != "sibling")) {
@@ -355,7 +370,12 @@ pub fn generate_sel(_seed: u64, tier: &str, sink: &mut Sink, tunnels_only: bool)
                 rb.send()
             }
             _ => {
-                // set on a sibling request and on a clone: must not reach this request
+                // set on a sibling request and on a clone: must not reach this request. The session has made a
+                // request of its own before (so whatever it sets up at its first handshake is there when the
+                // sibling's and the clone's setters run; seed C16-seed10)
+                if ci % 2 == 0 || aih {
+                    let _ = sess.get(&url).send();
+                }
                 let mut sib = sess.get(&url).danger_accept_invalid_certs(aic).danger_accept_invalid_hostnames(aih);
                 if root_added {
                     sib = sib.add_root_certificate(if *chain == "pinned" { pinned_root() } else { root() });
